@@ -459,6 +459,21 @@ func genC17(r *Run) {
 		if p.IPAddressLeaseTime(defDur) != d {
 			r.Fail("set-get-lease-time", d.String(), "")
 		}
+		// durations are not whole seconds in a program (expiry.Sub(now)): what is carried is the whole seconds, for
+		// every size of the seconds part (2^24 s is where a float64 of seconds stops holding nanoseconds) and every
+		// fraction up to one nanosecond short of the next second
+		{
+			secs := []uint32{r.Rng.Uint32(), 1 << 24, 1<<24 + 1, 31536000, 1 << 31, 0xfffffffe, 0xffffffff, uint32(r.Rng.Intn(1 << 25)), 0, 1}[i%10]
+			frac := []time.Duration{999999999, 1, 500 * time.Millisecond, 999999744, 0, 999999999}[i%6]
+			dd := time.Duration(secs)*time.Second + frac
+			want := time.Duration(secs) * time.Second
+			p.UpdateOption(dhcpv4.OptIPAddressLeaseTime(dd))
+			p.UpdateOption(dhcpv4.OptRenewTimeValue(dd))
+			p.UpdateOption(dhcpv4.OptRebindingTimeValue(dd))
+			if a, b, c := p.IPAddressLeaseTime(defDur), p.IPAddressRenewalTime(defDur), p.IPAddressRebindingTime(defDur); a != want || b != want || c != want {
+				r.Fail("set-get-duration-with-fraction", dd.String(), fmt.Sprintf("set %v (%d s and %v), read back lease %v renewal %v rebinding %v, want %v", dd, secs, frac, a, b, c, want))
+			}
+		}
 		mt := dhcpv4.MessageType(r.Rng.Intn(256))
 		p.UpdateOption(dhcpv4.OptMessageType(mt))
 		if p.MessageType() != mt {
